@@ -307,7 +307,8 @@ def setcookie_rules(chk, repo):
     dd = [v for v in ((v if v is not None else getattr(d, "value", None)) for d, v in norm.fn_defs(uc.node).defs.get("domain", [])) if v is not None and "cookie['domain']" in norm.raw(v).replace('"', "'")]
     if not dd:
         chk.analysis_error("C16.match: the read of the Domain attribute was not found in CookieJar.update_cookies")
-    elif all(".lower()" in norm.raw(v) for v in dd):
+    elif all(".lower()" in norm.raw(v) for v in dd) or any(isinstance(a, ast.Assign) and norm.raw(a.targets[0]).replace('"', "'") == "cookie['domain']" and ".lower()" in norm.raw(a.value)
+                                                            and all(a.lineno < getattr(v, "lineno", 10**9) for v in dd) for a in ast.walk(uc.node)):
         chk.ok("C16.match", dd[0], "the Domain attribute is lower-cased where it is read")
     else:
         chk.violation("C16.match", dd[0], K.short(dd[0]), "cookie['domain'].lower()",
